@@ -7,7 +7,11 @@ import props, manifest_text as T
 def main():
     checks = []
     for pid in sorted(props.PROPS):
-        t = T.CHECKS[pid]
+        t = dict(T.CHECKS[pid])
+        groups = props.PROPS[pid].get("tie_groups")
+        if groups:
+            t["technique"] = t["technique"] + "; scalar kernels (" + ", ".join(groups) + ") TRANSLATED from the Rust source by tools/rs2coq.py on every run and proved equal to the model for all arguments (coq/Gen/Tie*.v)"
+            t["note"] = t["note"] + " Translated-kernel tie: tools/rs2coq.py (Rust subset -> Gallina, fails closed) and the integer semantics coq/Gen/Ops.v are trusted for the groups " + ", ".join(groups) + "; a change to one of these functions changes a Coq term and the tie lemma must be re-proved."
         checks.append(dict(
             property_id=pid,
             quick_cmd=f"bin/check {pid} quick",
@@ -30,10 +34,12 @@ def main():
             source_commits=T.HOOK_COMMITS,
             add_only=True,
         ),
-        engines=[dict(name="coq-model+correspondence", path="/verif/coq, /verif/tools/check.py, /verif/harness, /verif/model",
+        engines=[dict(name="coq-model+correspondence", path="/verif/coq, /verif/tools/check.py, /verif/tools/rs2coq.py, /verif/harness, /verif/model",
                       serves_properties=sorted(props.PROPS),
                       kind_free_text="machine-checked Coq 8.16 theorems about a hand-written executable model of the code; "
-                                     "constants regenerated from the source on every run; model tied to the code by a "
+                                     "constants regenerated from the source on every run (tools/gen_params.py); 39 scalar kernel functions "
+                                     "translated from the Rust source to Gallina on every run (tools/rs2coq.py -> coq/Gen/Code*.v) and "
+                                     "proved equal to the model (coq/Gen/Tie*.v); the rest of the model tied to the code by a "
                                      "differential run of the extracted model and the real crate (results and load traces)")],
         checks=checks,
         notes=T.NOTES,
